@@ -228,6 +228,15 @@ where
     })
 }
 
+/// `(Lazy a)`: `a.lazy()`
+pub fn v_lazy<'a, I, E>(a: P<'a, I, E>) -> P<'a, I, E>
+where
+    I: HInput<'a> + ValueInput<'a>,
+    E: HErr<'a, I>,
+{
+    bx(a.lazy())
+}
+
 pub fn v_any<'a, I, E>() -> P<'a, I, E>
 where
     I: HInput<'a> + ValueInput<'a>,
@@ -552,7 +561,9 @@ impl<'a, I: HInput<'a>, E: HErr<'a, I>> Builder<'a, I, E> {
             }
             G::Boxed(a) => bx(self.g(a)?.boxed()),
             G::NestedIn(a) => I::nested_in(self.g(a)?)?,
+            G::WithState(k, a) => bx(self.g(a)?.with_state(HState { h: *k })),
             G::Skip(n) => I::skip(*n)?,
+            G::Lazy(a) => I::lazy(self.g(a)?)?,
             G::NestedDelims(s, e, others) => I::nested_delims(&self.cv, *s, *e, others)?,
             G::ExtWrap(a) => bx(chumsky::extension::v1::Ext(ExtW(self.g(a)?))),
             G::Pratt(form, atom, ops) => {
